@@ -32,7 +32,8 @@ class Case:
     """
 
     def __init__(self, name, body, params=None, patches=None, validate=True,
-                 max_paths=200000, split=0, twin=True):
+                 max_paths=200000, split=0, twin=True, solver='default'):
+        self.solver = solver
         self.name = name
         self.body = body
         self.params = params or {}
@@ -69,6 +70,7 @@ def run_concrete(case, inputs):
 def run_path(case, prefix, stats, probe=False):
     """Execute one symbolic path.  Returns (ctx, outcome) where outcome is
     ('ok', None) | ('abort', msg) | ('cex', Counterexample) | ('exc', Exception)."""
+    core.SOLVER_KIND = getattr(case, 'solver', 'default')
     c = SymCtx(prefix, stats)
     set_ctx(c)
     patches = case.patches() if case.patches else _nullctx()
@@ -250,10 +252,14 @@ def main_run(prop, tier, cases, *, functions=(), bounds=None, stubs=(), assumpti
     _CASES = cases
     deadline = (t0 + time_budget) if time_budget else None
     tasks = []
+    pre_errors = []
     for i, c in enumerate(cases):
         if c.split:
-            for r in split_roots(c, c.split):
-                tasks.append((i, [r], deadline))
+            try:
+                for r in split_roots(c, c.split):
+                    tasks.append((i, [r], deadline))
+            except HarnessError as e:
+                pre_errors.append(f'{c.name}: {e} (while splitting the decision tree)')
         else:
             tasks.append((i, [[]], deadline))
     procs = procs or min(16, max(1, len(tasks)))
@@ -268,7 +274,7 @@ def main_run(prop, tier, cases, *, functions=(), bounds=None, stubs=(), assumpti
                     results.append(r)
 
     agg = dict(paths=0, aborted=0, validated=0, decisions=0, queries=0, solver_time=0.0, obligations=0)
-    violations, errors, samples = list(extra_violations), list(extra_errors), []
+    violations, errors, samples = list(extra_violations), list(extra_errors) + pre_errors, []
     per_case = {}
     for r in results:
         for k in agg:
